@@ -7,16 +7,16 @@ ALL = ["C%02d" % i for i in range(1, 21)]
 # id -> (category, technique, level text, level note, design ref)
 CHECKS = {
  "C14": ("exploration", "runtime monitor in a chroot jail: before/after snapshot (all fields incl. inode and ctime) of sentinels outside both roots, provenance of every byte in the destination, fate of destination symlinks, landing path compared with an independent chroot-style resolver",
-         "Generated (source tree, destination tree, src path, dst path) with symlinks (absolute, '..'-laden, dangling, looping) to outside sentinels at every component and leaf x {follow-links, wildcards, always-replace, dir-contents, chown/utime/mode}. Held on the executions observed; known finding: lexical join in the dependency's RootPath.",
+         "Generated (source tree, destination tree, src path, dst path) with symlinks (absolute, '..'-laden, dangling, looping) to outside sentinels at every component and leaf x {follow-links, wildcards, always-replace, dir-contents, chown/utime/mode}, sources spelled 'x/.' for entries of every type. Held on the executions observed; known finding: lexical join in the dependency's RootPath.",
          "Trusts chroot(2), the snapshot walker and the chroot-style resolver in copyB_common.go; no concurrent modification.", "DESIGN.md §5 C14"),
  "C15": ("exploration", "runtime monitor: destination snapshot vs an executable overlay model (7 calibrated rules) incl. expected-error outcomes, obstacle preservation and a repeated copy for idempotence",
-         "Source/destination pairs over a shared 8-name universe (incl. two dot-only/dot-leading names) so that every type pair collides x {dir-contents, always-replace, wildcards, trailing separator, nested not-yet-existing dst}; all 49 (src type, dst type, outcome) classes are observed. Where the statement is silent every outcome is accepted and counted. Held on the executions observed.",
+         "Source/destination pairs over a shared 8-name universe (incl. two dot-only/dot-leading names) so that every type pair collides x {dir-contents, always-replace, wildcards, trailing separator, nested not-yet-existing dst, non-directory source spelled 'x/.', directory onto a non-directory}; all 49 (src type, dst type, outcome) classes are observed. Where the statement is silent every outcome is accepted and counted. Held on the executions observed.",
          "Trusts the overlay model in c15.go (calibrated against the repository's copy tests).", "DESIGN.md §5 C15"),
  "C17": ("exploration", "runtime monitor: archive/tar reader over WriteTar's output compared member by member with the independently predicted view; independent round trip through GNU tar extraction and snapshot comparison",
          "Generated trees (as C01, names >100 bytes, non-ASCII) x {unfiltered, include, exclude, both} x {on-disk FS, synthetic FS, SubDirFS}. Views affected by K1 are not judged. Held on the executions observed.",
          "Trusts archive/tar, GNU tar 1.34 and the snapshot walker; mtime to the second.", "DESIGN.md §5 C17"),
  "C18": ("exploration", "runtime differential monitor: FollowLinks result vs an independent chroot-style resolver (40-link limit) for coverage, order, prefix-freeness and root collapse; Walk-call step bound for termination; end-to-end transfer with FollowPaths and re-resolution in the copy",
-         "Link graphs (chains incl. 38-43 links, cycles, self loops, growing cycles, '..' beyond the root, dangling, absolute) x request lists (shared prefixes, wildcards, missing paths). Termination decided by a step bound on FS.Walk calls, not by time. Held on the executions observed; known finding: lexically cleaned link targets.",
+         "Link graphs (chains incl. 38-43 links, cycles, self loops, growing cycles, '..' beyond the root, dangling, absolute) x request lists (shared prefixes, wildcards, missing paths). Termination decided by a step bound on FS.Walk calls, not by time. Held on the executions observed; known findings: lexically cleaned link targets (K2), middle wildcard ending in a link (K8), resolved target read as a pattern (K9).",
          "Trusts the reference resolver in internal/refs/resolver.go; wildcard requests: result shape, termination, and end-to-end presence of every match reached through real directories only.", "DESIGN.md §5 C18"),
  "C20": ("exploration", "runtime monitor: value round trips across the hand-optimised codec and the generic protobuf runtime in both directions, framing through util.NewProtoStream with fragmenting readers, aliasing monitor (read buffers poisoned after each RecvMsg), panic capture and allocation accounting (runtime.MemStats) on arbitrary inputs; Go native fuzz targets as an extra workload generator",
          "Generated and mutated Stat/Packet values, packet sequences read back under 60 fragmentations incl. 1-byte reads, empty and >32 KiB packets, cut streams, arbitrary byte strings and frame streams (incl. a 4 GiB announcement in a memory-limited sub-process). Held on the executions observed; known finding: invalid UTF-8 names are rejected by the generic runtime.",
@@ -40,7 +40,7 @@ CHECKS = {
          "Trees with link groups straddling included/excluded paths x include/exclude/follow-path configurations x nested filter stacks (reference applied level by level). Known finding K1 triaged as in C10. Held on the executions observed.",
          "Reference filter as C10; follow-paths resolved by fsutil.FollowLinks itself (C18 checks it).", "DESIGN.md §5 C11"),
  "C13": ("exploration", "runtime differential monitor: snapshot(src) vs snapshot(dst) after fs.Copy under the statement's mask; option overrides evaluated independently (/bin/chmod for symbolic modes); change notifier calls recorded",
-         "Generated source trees (all types, link groups incl. special files, special bits, owners, ns mtimes, xattrs) x {whole tree, sub-directory, single file, single symlink} x option sets {chown, octal/symbolic mode, utime, xattr error handler, follow-links}. Held on the executions observed.",
+         "Generated source trees (all types, link groups incl. special files, sockets and symlinks with several names, special bits, owners, ns mtimes, xattrs) x {whole tree, sub-directory, single file, single symlink} x option sets {chown, octal/symbolic mode, utime, xattr error handler, follow-links}. Held on the executions observed.",
          "Trusts the snapshot walker and /bin/chmod as evaluator of symbolic modes (both GNU and POSIX readings admitted where they differ); root.", "DESIGN.md §5 C13"),
  "C16": ("exploration", "runtime differential monitor: set of paths written by fs.Copy with include/exclude patterns vs naive reference filter vs fsutil.Walk with the same patterns; metadata of on-demand ancestors compared with the source directory",
          "The trees and pattern grammar of C10, into empty and populated destinations (incl. type-conflicting obstacles at unselected paths, with and without always-replace); K1 triaged as in C10. Held on the executions observed.",
